@@ -142,7 +142,7 @@ def correspondence(ctx):
     for k in range(ctx.scale(300, 6000)):
         writes = []
         for _ in range(rng.randint(0, 8)):
-            w = rng.choice([0, 1, 3, 4, 7, 8, 9, 16, 17, 24, 33])
+            w = rng.choice([0, 1, 3, 4, 7, 8, 9, 16, 17, 24, 33, 57, 63, 64, 65, 90])
             kk = rng.randrange(1 << w) if (w and rng.random() < 0.9) else rng.randrange(1 << (w + 2))
             writes.append([kk, w])
         a = py_bit_write(writes)
@@ -233,7 +233,7 @@ def search(ctx):
             check_codec(ctx, j, True, brief={'chain_of_not_gates': depth, 'stored_sink_first': sink_first})
     # bit level and dictionary level, implementation only
     for k in range(ctx.scale(300, 6000)):
-        writes = [[rng.randrange(1 << w) if w else 0, w] for w in (rng.choice([1, 2, 5, 8, 13, 16, 24, 32]) for _ in range(rng.randint(1, 6)))]
+        writes = [[rng.randrange(1 << w) if w else 0, w] for w in (rng.choice([1, 2, 5, 8, 13, 16, 24, 32, 33, 57, 58, 63, 64, 65, 100]) for _ in range(rng.randint(1, 6)))]
         a = py_bit_write(writes)
         b = py_bit_read(a.get('ok', []), [w for _, w in writes]) if 'ok' in a else a
         ctx.case(json.dumps(['sb', writes]))
